@@ -35,6 +35,7 @@ type Result struct {
 
 // Ctx is handed to a scenario.
 type Ctx struct {
+	nNewBranch            int
 	T                     *sim.Tape
 	Root                  string
 	BinDir                string
